@@ -348,6 +348,7 @@ def c01_setop_family(rep, tier, coverage, ctx):
             for bt in bots[n]:
                 for po in posts(n):
                     progs.append({"id": f"so{len(progs)}", "decl": True, "steps": tp + [op(bt)] + po})
+    nprod = len(progs)
     # two operations in a row, an operation inside the bottom relation, widths that differ (no meaning given: not judged)
     one = [from_("t"), select(item("a"))]; ua = [from_("u"), select(item("a"))]; uc = [from_("u"), select(item(col("c"), "a"))]
     for o1 in (remove, intersect):
@@ -356,9 +357,16 @@ def c01_setop_family(rep, tier, coverage, ctx):
             progs.append({"id": f"so{len(progs)}", "decl": True, "steps": one + [o1(ua + [o2(uc)])]})
             progs.append({"id": f"so{len(progs)}", "decl": True, "steps": one + [append(uc), o1(ua)]})
         progs.append({"id": f"so{len(progs)}", "decl": True, "steps": [from_("t"), select(item("a"), item("b")), o1(ua)]})
+        # the bottom relation of an append ends in a set operation that SQLite can express (EXCEPT / INTERSECT after a
+        # whole-row de-duplication): the statement must keep the grouping t UNION ALL (u EXCEPT c)
+        dd = group(["a"], [take(1, 1)])
+        progs.append({"id": f"so{len(progs)}", "decl": True, "steps": one + [append(ua + [dd, o1(uc)])]})
+        progs.append({"id": f"so{len(progs)}", "decl": True, "steps": one + [append(ua + [dd, o1(uc)]), sort(("asc", "a"))]})
+        progs.append({"id": f"so{len(progs)}", "decl": True, "steps": one + [dd, o1(ua + [append(uc)])]})
+        progs.append({"id": f"so{len(progs)}", "decl": True, "steps": one + [dd, o1(ua + [dd, o1(uc)])]})
     if tier == "quick":
         rnd = random.Random(seed() + 11)
-        progs = progs[:0] + [p for i, p in enumerate(progs) if i % 2 == 0 or rnd.random() < 0.15]
+        progs = [p for i, p in enumerate(progs) if i % 2 == 0 or rnd.random() < 0.15 or i >= nprod]
     def fix(st_):
         st_.setdefault("at", [])
         for key in ("with", "pipe"):
